@@ -260,6 +260,31 @@ pub fn spaces(tier: Tier) -> Vec<Space<'static>> {
         }
         check_value(&v, acc, true)
     }));
+    // every string of <= 4 characters over the characters the renderer has to escape or that look
+    // like parts of an escape, as a value and as a key
+    {
+        const CH: [char; 8] = ['\\', '"', 'a', '/', '\n', '\u{1}', 'é', 'u'];
+        let n = CH.len() as u64;
+        let total: u64 = (0..=4u32).map(|k| n.pow(k)).sum();
+        sp.push(Space::new("strings: every sequence of <= 4 characters over {\\ \" a / LF U+0001 é u}, as value and key", total, move |idx, acc| {
+            let mut i = idx;
+            let mut len = 0u32;
+            let mut c = 1u64;
+            while i >= c {
+                i -= c;
+                c *= n;
+                len += 1;
+            }
+            let mut s = String::new();
+            for _ in 0..len {
+                s.push(CH[(i % n) as usize]);
+                i /= n;
+            }
+            let mut m = std::collections::BTreeMap::new();
+            m.insert(s.clone(), RVal::Arr(vec![RVal::Str(s.clone()), RVal::u(1)]));
+            check_value(&RVal::Obj(m), acc, true)
+        }));
+    }
     let b = univ::b64_finite();
     sp.push(Space::new("b64-finite", b.len() as u64, move |i, acc| check_value(&RVal::Arr(vec![RVal::Num(b[i as usize]), RVal::Null]), acc, true)));
     sp.push(Space::new("floats-top16", 1 << 16, |i, acc| {
